@@ -48,6 +48,10 @@ def run(rep):
         files.append(d / f'hist-c{size}.ndjson')
         jobs.append(('d_lexorder.py', ['history', hf, d / f'hist-c{size}.ndjson'], {'hooks': False, 'extra': {'ITEM_CACHE_SIZE': size}}))
     C.run_drivers_parallel(jobs)
+    # pickles written by one interpreter process and read by another (different string-hash seeds)
+    C.run_driver('d_lexorder.py', ['xdump', sents, d / 'items.pkl'], hooks=False, extra={'PYTHONHASHSEED': '11'})
+    C.run_driver('d_lexorder.py', ['xload', sents, d / 'items.pkl', d / 'xpickle.ndjson'], hooks=False, extra={'PYTHONHASHSEED': '22'})
+    files.append(d / 'xpickle.ndjson')
     res = C.tlc_parallel([dict(module='C14_Order', cfg=VAL_CFG, env={'CASES': f}, tag=f'c14val{k}', timeout=3400, xmx='4g')
                           for k, f in enumerate(files)])
     total = 0
@@ -68,6 +72,8 @@ def run(rep):
             c = json.loads(line)
             if c['rec'] == 'rebuild':
                 distinct.add(('rebuild', json.dumps(c['item'])))
+            elif c['rec'] == 'xpickle':
+                distinct.add(('xpickle', json.dumps(c['item'])))
             elif c['rec'] == 'history':
                 distinct.add(('history', f.name, c['id']))
             else:
